@@ -607,10 +607,12 @@ def build_jobs(q):
 
     def single(spec, limit, md, cross=False):
         J.append((("single", spec, limit, md, cross), _predict(spec, limit, md, cross)))
-    L_SMALL, L_FULL, L_DEEP = 4096, 32768, 1 << 18
+    L_SMALL, L_FULL, L_DEEP = 2048, 32768, 1 << 18
     # ---- A: Integer.random, 1..16 bits, exact/max, three back-ends (no rejection: the tree is complete)
     for be in BACKENDS:
         for bits in range(1, 17):
+            if q and be != "Native" and bits > 8 and bits not in (9, 13, 16):
+                continue
             for exact in (False, True):
                 single(("irandom", be, bits, exact), 0, 0)
     # ---- B: Integer.random_range
@@ -629,7 +631,7 @@ def build_jobs(q):
                         lim = L_SMALL
                     single(("irange", be, lo, nm, incl), lim, 2)
     for nm in range(1, 256):           # deeper: Native, min=1
-        single(("irange", "Native", 1, nm, True), L_FULL if q else L_DEEP, 2)
+        single(("irange", "Native", 1, nm, True), L_FULL if q else L_DEEP, 1 if q else 2)
     for be in ("Custom", "GMP"):
         for k in range(1, 9):
             for nm in ((1 << k) - 2, (1 << k) - 1, 1 << k, (1 << k) + 1):
@@ -670,7 +672,7 @@ def build_jobs(q):
         for w in (1, 2, 7, 300):
             single(("randrange", "randfunc", start + w, start, -1), L_SMALL, 1)
     for w in range(1, 256):
-        single(("randrange", "randfunc", 1, 1 + w, 1), L_FULL if q else L_DEEP, 2)
+        single(("randrange", "randfunc", 1, 1 + w, 1), L_FULL if q else L_DEEP, 1 if q else 2)
     for variant in ("rng", "module"):
         for w in range(1, 41):
             single(("randrange", variant, 0, w, 1), L_SMALL, 2)
@@ -914,12 +916,13 @@ def run(ctx):
         "rsa_prime_candidates_checked": n.get("rsa_candidates_checked", 0),
         "cpu_seconds_by_part": {k[6:]: round(v, 1) for k, v in sorted(n.items()) if k.startswith("cpu_s/")},
         "grid": {
-            "Integer.random": "exact_bits/max_bits 1..16 x Native/Custom/GMP: every tape (256 or 65536), no rejection possible",
+            "Integer.random": "exact_bits/max_bits 1..16 x Native/Custom/GMP%s: every tape (256 or 65536), no rejection possible"
+                              % (" (Custom/GMP above 8 bits: 9, 13, 16)" if q else ""),
             "Integer.random_range": "min 0..3 x max-min 1..300 x {max_inclusive, max_exclusive} x 3 back-ends for ranges of <= 8 bits: every "
                                     "1-byte tape, plus every further attempt after every rejected prefix while a level has <= %s tapes "
                                     "(<= 2 rejections); Native min=1: limit %s; ranges of 9..16 bits (%s): every 2-byte tape of the "
                                     "first attempt, cross enumeration after a rejection on the marked cases%s"
-                                    % ("4096 (quick)" if q else "32768 (Native; min 0,3 for Custom/GMP), 4096 otherwise", "32768" if q else "262144",
+                                    % ("2048 (quick)" if q else "32768 (Native; min 0,3 for Custom/GMP), 2048 otherwise", "32768" if q else "262144",
                                        "15 Native + 4 Custom/GMP boundary widths" if q else "max-min 256..300 and 2^k-1,2^k,2^k+1 for k<=16",
                                        "" if q else "; 17-bit range [1, 65537]: all 2^24 tapes of the first attempt (Native)"),
             "StrongRandom": "getrandbits 1..16%s (randfunc=), 1..9,16 (rng=, module level); randrange start 0..3 x width 1..301 x step 1,2,3 "
